@@ -216,7 +216,7 @@ impl Property for C13 {
     }
     fn runs(&self, tier: Tier) -> usize {
         match tier {
-            Tier::Quick => 30_000,
+            Tier::Quick => 80_000,
             Tier::Thorough => 600_000,
         }
     }
